@@ -229,7 +229,7 @@ def check(prog, rep):
             const = True
             detail = []
             for c in cs:
-                a = try_fold(c.args[2])
+                a = try_fold(c.args[2], prog.module_env(f.module.rel))  # (constants of the module and those it imports)
                 if not isinstance(a, (int, float)):
                     const = False
                     detail.append(U(c.args[2]))
@@ -240,7 +240,7 @@ def check(prog, rep):
                         pass
                 lp = enclosing_loops(c)
                 if lp and _seq_block(c) is lp[0]:
-                    rng = try_fold(lp[0].iter)
+                    rng = try_fold(lp[0].iter, prog.module_env(f.module.rel))
                     if not isinstance(rng, list):
                         const = False
                         detail.append(f"loop {U(lp[0].iter)}")
